@@ -52,8 +52,18 @@ const CCYS: &[&str] = &[
 
 // ------------------------------------------------------------------ generation
 
+/// A quote level: mostly log-uniform over eight decades, sometimes a "round" value
+/// (special-cased fast paths are a classic place for a slip).
+fn gen_level(rng: &mut Rng) -> f64 {
+    if rng.chance(0.12) {
+        *rng.pick(&[1.0, 2.0, 0.5, 10.0, 100.0, 0.25, 4.0, 0.01])
+    } else {
+        rng.log_uniform(1e-4, 1e4)
+    }
+}
+
 fn gen_quote_num(rng: &mut Rng) -> Num {
-    let v = rng.log_uniform(1e-4, 1e4);
+    let v = gen_level(rng);
     let kind = rng.weighted(&[60, 25, 15]) as u8;
     gen_num(rng, kind, v, 2, "")
 }
@@ -92,7 +102,7 @@ pub fn generate(rng: &mut Rng, tier: Tier) -> Plan {
             (i, parent)
         };
         let num = if float_only {
-            Num::F(Fx::new(rng.log_uniform(1e-4, 1e4)))
+            Num::F(Fx::new(gen_level(rng)))
         } else {
             gen_quote_num(rng)
         };
@@ -148,7 +158,7 @@ pub fn generate(rng: &mut Rng, tier: Tier) -> Plan {
                     gen_quote_num(rng).with_value(q.num.value())
                 } else if float_only || rng.chance(0.6) {
                     // same kind, new value
-                    q.num.with_value(rng.log_uniform(1e-4, 1e4))
+                    q.num.with_value(gen_level(rng))
                 } else {
                     gen_quote_num(rng)
                 };
@@ -194,7 +204,7 @@ pub fn generate(rng: &mut Rng, tier: Tier) -> Plan {
             let bad = Quote {
                 lhs: l,
                 rhs: r,
-                num: Num::F(Fx::new(rng.log_uniform(1e-4, 1e4))),
+                num: Num::F(Fx::new(gen_level(rng))),
                 settle: cur[0].settle,
             };
             let pos = rng.usize_in(0, items.len());
@@ -219,7 +229,7 @@ pub fn generate(rng: &mut Rng, tier: Tier) -> Plan {
         Some(vec![Quote {
             lhs: q.lhs.clone(),
             rhs: q.rhs.clone(),
-            num: q.num.with_value(rng.log_uniform(1e-4, 1e4)),
+            num: q.num.with_value(gen_level(rng)),
             settle,
         }])
     };
@@ -257,7 +267,7 @@ pub fn generate(rng: &mut Rng, tier: Tier) -> Plan {
                     num: if rng.chance(0.5) {
                         q.num.clone()
                     } else {
-                        q.num.with_value(rng.log_uniform(1e-4, 1e4))
+                        q.num.with_value(gen_level(rng))
                     },
                     settle: new_settle,
                 })
